@@ -195,15 +195,24 @@ CLAIMED = {
              "interposable, 'closed before rename' is read from /proc/self/fd.",
         technique="Lean 4 proof (trace invariant over all prefixes) + syscall-trace correspondence + exhaustive crash-point enumeration", design="§4 C15"),
     "C16": dict(
-        text="Lean 4 over writer models with fault schedules: bw_failure_reported / nw_failure_reported (descriptor writer; named writer with "
+        text="Lean 4, the whole uncompressed descriptor stack as ONE state machine (Model.Stack: CdnsExporter's buffered block and block counter on "
+             "CdnsEncoder's staging buffer with flush_buffer ANYWHERE on the bottom writer with m_failed, OS answers from a fault schedule): "
+             "stack_failure_reported (for every API history, fault schedule and flush placement an output closed by rotate_output lost no byte "
+             "unless an API call threw while it was open), stack_block_kept (an exception out of write_block()/a flushing buffer_*() leaves the "
+             "records buffered, the one just handed over included), stack_recovery (after a reported failure rotate_output(healthy,false) returns "
+             "normally with the records kept, write_block() writes header+block, the closing rotation leaves exactly header++block++break, "
+             "nothing thrown). Tie of Model.Stack (driver stk, os layer mode stk): the same sessions on the real exporter with every fault point "
+             "injected; the model's flushes are placed where the sizes of the real write() calls say they happened, block lengths measured on a "
+             "copy of the buffered block; compared per call: threw or not, records buffered, block counter; per output: bytes the OS accepted. "
+             "Lean 4 over the single writer layers: bw_failure_reported / nw_failure_reported (descriptor writer; named writer with "
              "an ofstream buffer flushed at arbitrary times): if no write and not the closing rotate threw, the OS holds every byte; "
              "bw_reported_once; bw_recovery / nw_recovery (rotation yields a fresh writer, does not rethrow a reported failure). Decision on "
              "the implementation: every fault point k (ENOSPC / EIO / short; single and persistent) of scripted scenarios x "
              "{name,descriptor} x {none,gzip,xz} injected through interposed write/writev; oracle: loss => exception no later than the closing "
              "rotate; throwing write_block keeps its records; rotate to a healthy destination succeeds; next write_block yields a valid file "
              "with the kept records (validated by the Lean reader). Also: destinations that cannot be opened (invalid descriptor, missing directory) and recovery from them; the output between two rotations stays empty; a block written to the output a throwing rotation had opened is not lost silently. Small state machines of the compressor and exporter layers across a throwing rotation (cw_write_after_rotation_is_not_dropped, ex_header_after_rotation; the pre-repair behaviour refuted by witness).",
-        note="Partial: encoder staging buffer and compressor layers only propagate the bottom writers' exceptions - composition tied by "
-             "fault injection, not proved. Interpretation: a rotate_output after an already REPORTED failure returns normally.",
+        note="Partial: the composition is proved for uncompressed descriptor outputs; the compressor layer and the named writer's ofstream are "
+             "separate models (CW, NW) composed only by fault injection. Interpretation: a rotate_output after an already REPORTED failure returns normally.",
         technique="Lean 4 proof over fault-schedule models + exhaustive fault-point injection via syscall interposition", design="§4 C16"),
     "C03": dict(
         text="Lean 4 per-layer theorems: every decoder byte access lies in a non-empty fetched window and the decoder sees exactly the "
